@@ -1547,8 +1547,10 @@ class HistGen:
                 ops.append("s")
                 if rfc in (822, 5321, 5322, 6531):
                     confirmed = True
-            elif r < 0.5:
+            elif r < 0.48:
                 ops.append("m")
+            elif r < 0.5:
+                ops.append("v")             # re-read the record the object holds (model: `e.result`)
             elif r < 0.55:
                 ops += ["f", "i"]
                 confirmed = False
